@@ -172,4 +172,21 @@ theorem alto_confidence_total {R : Type} [Field R] [LinearOrder R] [IsStrictOrde
   obtain ⟨cs, hcs⟩ := hdef
   exact ⟨qs, cs, hps, hcs, C16.lineConfidence_range C probs labels qs cs hp hcs⟩
 
+/-! ### re-import (`from_altoxml`): the String contents of a line are joined by single blanks -/
+
+/-- Splitting the re-imported transcription returns exactly the exported words, for every list of non-empty, blank-free
+words (what `words_eq_split` / `pySplit_spec` guarantee for the export; the order conversion only permutes characters). -/
+theorem reimport_words (isSpace : Nat → Bool) (h32 : isSpace 32 = true) (ws : List Str)
+    (hws : ∀ w ∈ ws, w ≠ [] ∧ ∀ c ∈ w, isSpace c = false) :
+    Alto.pySplit isSpace (Alto.reimportLine ws) = ws :=
+  Alto.pySplit_reimport isSpace h32 ws hws
+
+/-- Export followed by re-import returns the same words for every transcription. -/
+theorem reimport_roundtrip (isSpace : Nat → Bool) (h32 : isSpace 32 = true) (s : Str) :
+    Alto.pySplit isSpace (Alto.reimportLine (Alto.pySplit isSpace s)) = Alto.pySplit isSpace s :=
+  Alto.pySplit_reimport isSpace h32 _ (pySplit_spec isSpace s).2
+
+/-- non-vacuity: "ab  c" (two blanks) exports the words ab, c and re-imports as "ab c" -/
+example : Alto.reimportLine (Alto.pySplit (· == 32) [97, 98, 32, 32, 99]) = [97, 98, 32, 99] := by decide
+
 end C06
